@@ -460,6 +460,8 @@ def check(pid, tier, seed, only_random=False, extra=None):
     extra_cov = {}
     if extra is None and pid == "C16":
         extra = c16_parts
+    elif extra is None and pid == "C04":
+        extra = c04_parts
     elif extra is None and pid in EST_TAGS:
         extra = est_part
     if extra is not None:
@@ -505,16 +507,33 @@ def check(pid, tier, seed, only_random=False, extra=None):
 EST_TAGS = {"C01", "C04", "C05", "C06", "C07", "C16"}
 
 
-def c16_parts(pid, tier, seed, rnd):
-    """C16 = establishment-phase traces + the refinement layer underneath xcm_fd(): spec/XPoll.tla against the real xpoll.c"""
-    import xpoll
-    v1, c1, n1 = est_part(pid, tier, seed, rnd)
-    v2, c2, n2 = xpoll.part(pid, tier, seed, rnd)
-    c1["xpoll"] = c2
+def _merge(c1, name, c2):
+    c1[name] = c2
     c1["states"] = c1.get("states", 0) + c2["states"]
     c1["transitions"] = c1.get("transitions", 0) + c2["transitions"]
     c1["executions"] = c1.get("executions", 0) + c2["executions"]
-    return v1 + v2, c1, n1 + n2
+
+
+def c16_parts(pid, tier, seed, rnd):
+    """C16 = establishment-phase traces + the refinement layers underneath xcm_fd(): spec/XPoll.tla against the real xpoll.c,
+    spec/TimerMgr.tla against the real timer_mgr.c (the descriptor is quiet while no timer has expired)"""
+    import timer
+    import xpoll
+    v1, c1, n1 = est_part(pid, tier, seed, rnd)
+    v2, c2, n2 = xpoll.part(pid, tier, seed, rnd)
+    v3, c3, n3 = timer.part(pid, tier, seed, rnd)
+    _merge(c1, "xpoll", c2)
+    _merge(c1, "timer_mgr", c3)
+    return v1 + v2 + v3, c1, n1 + n2 + n3
+
+
+def c04_parts(pid, tier, seed, rnd):
+    """C04 = establishment-phase traces + spec/TimerMgr.tla against the real timer_mgr.c (an expired timer wakes the socket)"""
+    import timer
+    v1, c1, n1 = est_part(pid, tier, seed, rnd)
+    v3, c3, n3 = timer.part(pid, tier, seed, rnd)
+    _merge(c1, "timer_mgr", c3)
+    return v1 + v3, c1, n1 + n3
 
 
 def est_part(pid, tier, seed, rnd):
@@ -664,6 +683,9 @@ def replay(pid, path):
     if path.endswith(".xps"):
         import xpoll
         return xpoll.replay(pid, path)
+    if path.endswith(".tms"):
+        import timer
+        return timer.replay(pid, path)
     lines0 = [l.rstrip("\n") for l in open(path) if l.strip() and not l.startswith("#")]
     if lines0 and len(lines0[0].split()) >= 4 and lines0[0].split()[3] in ("normal", "refused", "silent", "release", "mute", "garbage", "idle", "ctlflood", "blocking", "garbage2", "longidle"):
         import est
